@@ -59,6 +59,9 @@ func c11SplitProgram(src string) (*c11Split, error) {
 // what main of the package-dir modes prints first: gDep = gBig/2 + int(gU8), gName = "n0", gDep2 = gDep + len(gName)
 const c11DepsLine = "deps 549755814140 549755814138 n0\n"
 
+// the C11 universe is the first 4000 programs of the C01 universe
+const c11Universe = 4000
+
 type c11Obs struct {
 	Out     string `json:"out"`
 	Globals string `json:"globals"`
@@ -328,12 +331,12 @@ func checkC11(r *core.Run) {
 		n = 400
 	}
 	if os.Getenv("VERIF_C11_ALL") != "" {
-		n = c01Universe
+		n = c11Universe
 	}
-	start := (r.Seed * 7907) % c01Universe
+	start := (r.Seed * 7907) % c11Universe
 	var items []core.BatchItem
 	for k := 0; k < n; k++ {
-		idx := (start + uint64(k)) % c01Universe
+		idx := (start + uint64(k)) % c11Universe
 		src := genProgram(idx, 8).Render(nil)
 		for _, m := range c11Modes[1:] {
 			// the way a program is cut depends on the program only, never on the run's seed: the universe is fixed
